@@ -1,6 +1,7 @@
 /- C12 line-protocol driver: prints `model <TAB> spec` for each case line.
 
-   `<op> r1=<i32|i64|f64> p1=<k> [r2=<..> p2=<k>] [rs=<i32|i64>] a=<int>|as=[..] [b=<int>]`
+   `<op> r1=<i8|i16|i32|i64|u8|u16|u32|f64> p1=<k> [r2=<..> p2=<k>] [rs=<i32|i64>] a=<int>|as=[..] [b=<int>] [ns=1]`
+   (`ns=1` is read by the harness only: the std:: column is `*` for that line)
    p1/p2 index the period table `periods` (same table as harness/c12.cpp and checks/props/c12.py).
    For an f64 representation the count is `a / 8`.  With a list argument the op is evaluated for every element
    and the results are printed as `[r1,r2,...]`; several values of one evaluation are joined with `;`.
@@ -19,8 +20,13 @@ def periods : List (Int × Int) :=
    (10, 14), (-1001, -30000)]
 
 def repOf : String → Option F.RK
+  | "i8" => some (.i ⟨8, true⟩)
+  | "i16" => some (.i ⟨16, true⟩)
   | "i32" => some (.i ⟨32, true⟩)
   | "i64" => some (.i ⟨64, true⟩)
+  | "u8" => some (.i ⟨8, false⟩)
+  | "u16" => some (.i ⟨16, false⟩)
+  | "u32" => some (.i ⟨32, false⟩)
   | "f64" => some .f
   | _ => none
 
@@ -77,7 +83,9 @@ def evalInt (op : String) (t1 t2 : ITy) (nd1 nd2 : Int × Int) (b : Int) : Optio
   let one (m : Int → Except Err Int) (s : Int → Int) : Option (Int → String × String) :=
     some fun a => (fmtE sI (m a), sI (s a))
   match op with
-  | "conv" | "tp_conv" =>      -- (time_point's converting constructor: the duration one on time_since_epoch())
+  -- the `tp_…` operations: `tpCast`, `tpFloor`, `tpCeil`, `tpRound`, `tpConvert`, `tpEq … tpGe` of the model are by definition the
+  -- duration functions on `time_since_epoch()`; the driver evaluates their run-time bodies on the context computed once per line
+  | "conv" | "tp_conv" =>
     let k := castCtx d2 d1
     let conv := (p / q).den == 1
     some fun a => (convStr k a, if conv then sI (Spec.floor p q a) else "n/a")
@@ -157,14 +165,16 @@ def evalInt1 (op : String) (t rs : ITy) (nd : Int × Int) (b : Int) : Option (In
     (fmtE id m, join [sI a, sI (a - 2), sI (a - 2)])
   | "tp_inc" => some fun a =>
     let m : Except Err String := do
-      let x ← addAssign d a 1
-      let y ← addAssign d x 1
-      let z ← subAssign d y 1
-      let w ← subAssign d z 1
+      let x ← tpInc d a
+      let y ← tpInc d x
+      let z ← tpDec d y
+      let w ← tpDec d z
       .ok (join [sI a, sI y, sI w])
     (fmtE id m, join [sI a, sI (a + 2), sI a])
-  | "adda" | "tp_adda" => one (addAssign d · b) (· + b)
-  | "suba" | "tp_suba" => one (subAssign d · b) (· - b)
+  | "adda" => one (addAssign d · b) (· + b)
+  | "tp_adda" => one (tpAddAssign d · b) (· + b)
+  | "suba" => one (subAssign d · b) (· - b)
+  | "tp_suba" => one (tpSubAssign d · b) (· - b)
   | "mula" => one (mulAssign d · b) (· * b)
   | "diva" => one (divAssign d · b) (Spec.divRep p · b)
   | "moda" | "modad" => one (modAssign d · b) (Spec.modRep p · b)
@@ -180,8 +190,12 @@ def evalInt1 (op : String) (t rs : ITy) (nd : Int × Int) (b : Int) : Option (In
   | "divr" => let k := scalarCtx d rs; one (withCtx k (divRepCore · · b)) (Spec.divRep p · b)
   | "modr" => let k := scalarCtx d rs; one (withCtx k (modRepCore · · b)) (Spec.modRep p · b)
   | "limits" =>
-    let s := join [sI 0, sI t.min, sI t.max, sI t.min, sI t.max]
-    some fun _ => (s, s)
+    -- model: the members as written (duration_values / numeric_limits); spec: zero, the least and the greatest value of the representation
+    let m := join [sI (durZero d), sI (durMin d), sI (durMax d), sI (tpMin d), sI (tpMax d)]
+    let lo : Int := if t.sg then -(2 ^ (t.w - 1)) else 0
+    let hi : Int := if t.sg then 2 ^ (t.w - 1) - 1 else 2 ^ t.w - 1
+    let s := join [sI 0, sI lo, sI hi, sI lo, sI hi]
+    some fun _ => (m, s)
   | _ => none
 
 def mkV (r : F.RK) (a : Int) : F.V :=
@@ -252,17 +266,11 @@ def evalF1 (op : String) (b : Int) : Option (Int → String) :=
   | "limits" => some fun _ => "x0000000000000000;xffefffffffffffff;x7fefffffffffffff;xffefffffffffffff;x7fefffffffffffff"
   | _ => none
 
-/-- the named duration types of duration.hpp (`ratio` template arguments as written there) and of [time.syn] -/
-def namedModel : List (Int × Int) :=
-  [(1, 1000000000), (1, 1000000), (1, 1000), (1, 1), (60, 1), (3600, 1), (86400, 1), (604800, 1), (2629746, 1), (31556952, 1)]
-/-- [time.syn]: months = years / 12, years = 146097 days / 400, weeks = 7 days -/
-def namedSpec : List Rat :=
-  [1 / 1000000000, 1 / 1000000, 1 / 1000, 1, 60, 3600, 86400, 7 * 86400, (146097 * 86400 : Rat) / 400 / 12, (146097 * 86400 : Rat) / 400]
-
+/-- the named duration types: the period of the model's alias (`Model.namedTypes`) against [time.syn] (`Spec.namedPeriods`) -/
 def evalNamed (k : Nat) : Option (String × String) := do
-  let nd ← namedModel[k]?
-  let sp ← namedSpec[k]?
-  let m := match mkRatio nd.1 nd.2 with
+  let nd ← namedTypes[k]?
+  let sp ← Spec.namedPeriods[k]?
+  let m := match mkRatio nd.2.1 nd.2.2 with
     | .ok r => join [sI r.num, sI r.den]
     | .error e => e.fmt
   some (m, join [sI sp.num, toString sp.den])
